@@ -136,3 +136,115 @@ def run_merge(item):
     except Exception as e:  # noqa
         fails.append({"what": "merged transform raised", "exc": type(e).__name__ + ": " + str(e)[:200]})
     return {"ok": not fails, "fails": fails}
+
+
+def run_skipgram(item):
+    light()
+    from vectorizers.skip_gram_vectorizer import SkipgramVectorizer
+    V, f = item["V"], item["cfg"]
+    kw = dict(window_radius=f["r"], kernel_function=f["kernel"])
+    kw.update(tok_kwargs(f["tok"], V, "skipgram"))
+    X, Xt = docs(item["corpus"], V), docs(item["test"], V)
+    den = float(item["den"])
+    lab = lambda g: (name(g[0], V), name(g[1], V))  # noqa
+    exp_cols = {lab(g): ix for g, ix in item["colindex"]}
+
+    def cells(cs):
+        return {(e["d"] - 1, lab(e["g"])): e["v"] / den for e in cs}
+    fails = []
+    try:
+        m = SkipgramVectorizer(**kw)
+        M = m.fit_transform(X)
+    except (ValueError, IndexError) as e:
+        if not item["kept"]:
+            return {"ok": True, "precondition": "empty kept vocabulary"}
+        return {"ok": False, "fails": [{"what": "fit raised", "exc": type(e).__name__ + ": " + str(e)[:200]}]}
+    if dict(m.column_label_dictionary_) != exp_cols:
+        fails.append({"what": "columns", "got": {str(k): v for k, v in m.column_label_dictionary_.items()},
+                      "expected": {str(k): v for k, v in exp_cols.items()}})
+    else:
+        inv = {v: k for k, v in m.column_label_dictionary_.items()}
+        if M.shape != (len(X), len(exp_cols)):
+            fails.append({"what": "train shape", "got": list(M.shape), "expected": [len(X), len(exp_cols)]})
+        b = diff(cells(item["train"]), mat_cells(M, inv), 1e-6)
+        if b:
+            fails.append({"what": "train cells", "bad": b})
+        m2 = SkipgramVectorizer(**kw)
+        if m2.fit(X) is not m2:
+            fails.append({"what": "fit does not return self"})
+        for nm, data, exp in (("transform(X')", Xt, item["trans"]), ("transform(X)", X, item["train"])):
+            try:
+                T = m2.transform(data)
+            except Exception as e:  # noqa
+                fails.append({"what": nm + " raised", "exc": type(e).__name__ + ": " + str(e)[:200]})
+                continue
+            if T.shape != (len(data), len(exp_cols)):
+                fails.append({"what": nm + " shape", "got": list(T.shape), "expected": [len(data), len(exp_cols)]})
+            else:
+                b = diff(cells(exp), mat_cells(T, inv), 1e-6)
+                if b:
+                    fails.append({"what": nm + " cells", "bad": b})
+    return {"ok": not fails, "fails": fails[:4]}
+
+
+def run_edgelist(item):
+    light()
+    from vectorizers.edge_list_vectorizer import EdgeListVectorizer
+    f = item["cfg"]
+    fails = []
+    for style in item.get("styles", ["str"]):
+        L = (lambda i: "n%d" % i) if style == "str" else (lambda i: int(i) + 10)
+        kw = dict(joint_space=bool(f["joint"]))
+        if f["rowdict"]:
+            kw["row_label_dictionary"] = {L(a): b for a, b in f["rowdict"]}
+        if f["coldict"]:
+            kw["column_label_dictionary"] = {L(a): b for a, b in f["coldict"]}
+        E = [(L(r), L(c), v) for r, c, v in item["edges"]]
+        Et = [(L(r), L(c), v) for r, c, v in item["test"]]
+        rows = {L(a): b for a, b in item["rows"]}
+        cols = {L(a): b for a, b in item["cols"]}
+        shape = tuple(item["shape"])
+
+        def cells(cs):
+            return {(L(e["r"]), L(e["c"])): float(e["v"]) for e in cs}
+
+        def obs(M, m):
+            M = M.tocoo()
+            ri = {v: k for k, v in m.row_label_dictionary_.items()}
+            ci_ = {v: k for k, v in m.column_label_dictionary_.items()}
+            out = {}
+            for r, c, v in zip(M.row, M.col, M.data):
+                if v != 0:
+                    out[(ri[int(r)], ci_[int(c)])] = out.get((ri[int(r)], ci_[int(c)]), 0.0) + float(v)
+            return out
+        try:
+            m = EdgeListVectorizer(**kw)
+            M = m.fit_transform(E)
+        except Exception as e:  # noqa
+            fails.append({"what": "fit raised", "style": style, "exc": type(e).__name__ + ": " + str(e)[:200]})
+            continue
+        if dict(m.row_label_dictionary_) != rows or dict(m.column_label_dictionary_) != cols:
+            fails.append({"what": "dictionaries", "style": style, "rows": {str(k): v for k, v in m.row_label_dictionary_.items()},
+                          "cols": {str(k): v for k, v in m.column_label_dictionary_.items()}})
+            continue
+        if M.shape != shape:
+            fails.append({"what": "train shape", "style": style, "got": list(M.shape), "expected": list(shape)})
+        b = diff(cells(item["train"]), obs(M, m))
+        if b:
+            fails.append({"what": "train cells", "style": style, "bad": b})
+        m2 = EdgeListVectorizer(**kw)
+        if m2.fit(E) is not m2:
+            fails.append({"what": "fit does not return self"})
+        for nm, data, exp in (("transform(X')", Et, item["trans"]), ("transform(X)", E, item["train"])):
+            try:
+                T = m2.transform(data)
+            except Exception as e:  # noqa
+                fails.append({"what": nm + " raised", "style": style, "exc": type(e).__name__ + ": " + str(e)[:200]})
+                continue
+            if T.shape != shape:
+                fails.append({"what": nm + " shape", "style": style, "got": list(T.shape), "expected": list(shape)})
+            else:
+                b = diff(cells(exp), obs(T, m2))
+                if b:
+                    fails.append({"what": nm + " cells", "style": style, "bad": b})
+    return {"ok": not fails, "fails": fails[:4]}
